@@ -321,7 +321,7 @@ func (d *Decls) rangeAssume(t string, typ types.Type, allocTerm string, depth in
 	case *types.Chan, *types.Signature, *types.Interface:
 		return fmt.Sprintf("(>= %s 0)", t)
 	case *types.Slice:
-		s := fmt.Sprintf("(and (>= (s-arr %s) 0) (>= (s-off %s) 0) (>= (s-len %s) 0) (<= (s-len %s) (s-cap %s)) (=> (= (s-arr %s) 0) (= (s-cap %s) 0))", t, t, t, t, t, t, t)
+		s := fmt.Sprintf("(and (>= (s-arr %s) 0) (>= (s-off %s) 0) (>= (s-len %s) 0) (<= (s-len %s) (s-cap %s)) (=> (= (s-arr %s) 0) (= (s-cap %s) 0)) (<= (+ (s-off %s) (s-cap %s)) 9223372036854775807)", t, t, t, t, t, t, t, t, t)
 		if allocTerm != "" {
 			s += fmt.Sprintf(" (< (s-arr %s) %s)", t, allocTerm)
 		}
